@@ -46,6 +46,27 @@ def run(ctx):
         v = ctx.validate(TRACE_MODULE, sw, label="sweep-rejects", count_distinct=False)
         if not v.mismatches and not ctx.violations:
             raise vlib.Infra("sweeper rejected %s inputs that the trace specification accepts: sweeper/table bug" % m.group(2))
+    # the same events and the same complete sweep in an intrinsic build with every x86 extension GLM may key a conversion fast path on
+    bi = ctx.build("c07_simd", "c07.cpp", flags=["-DGLM_FORCE_INTRINSICS", "-mavx2", "-mfma", "-mf16c"], opt="-O2", label="c07 intrinsics avx2+f16c")
+    if bi:
+        tri = ctx.scratch.path("c07_simd.ndjson")
+        ok, out = ctx.run_harness(bi, [tri, "events", tab, ctx.tier], tri)
+        if ok:
+            ctx.validate(TRACE_MODULE, tri, label="events-intrinsics")
+        swi = ctx.scratch.path("c07sweep_simd.ndjson")
+        ok, out = ctx.run_harness(bi, [swi, "sweep", tab], swi)
+        mi = re.search(r"SWEEP inputs=(\d+) rejected=(\d+)", out) if ok else None
+        if ok and not mi:
+            raise vlib.Infra("c07 sweep (intrinsics) failed: " + out[-2000:])
+        if mi:
+            ctx.sweep_inputs += int(mi.group(1))
+            ctx.extra["sweep_inputs_intrinsics"] = int(mi.group(1))
+            ctx.extra["distinct_extra"] = ctx.extra.get("distinct_extra", 0) + int(mi.group(1))
+            if int(mi.group(2)) > 0:
+                nv = len(ctx.violations)
+                v = ctx.validate(TRACE_MODULE, swi, label="sweep-rejects-intrinsics", count_distinct=False)
+                if not v.mismatches and len(ctx.violations) == nv:
+                    raise vlib.Infra("sweeper rejected inputs that the trace specification accepts: sweeper/table bug")
     ctx.rule("all 65536 half patterns through unpackHalf1x16 and re-pack; all 2^32 float patterns through packHalf1x16 against the "
              "31745-row acceptance-interval table derived and verified by TLC (E5 sweep; table rejections re-judged by TLC); every interval "
              "end, end+-1, midpoint and a random interior point of both signs, NaN payloads, and the 2x16/4x16/vector forms judged directly by TLC",
